@@ -46,7 +46,7 @@ from pyvc.contracts import FnContract, LoopSpec, Raises
 from pyvc.flow import ground_obligation
 from pyvc.state import HeapObj
 from pyvc.symex import Executor
-from pyvc.values import (NONE, VBool, VBytes, VExc, VExt, VFunc, VInt, VRef, VSeq, VStr, VTuple, VUnk,
+from pyvc.values import (NONE, VBool, VBytes, VDictC, VExc, VExt, VFunc, VInt, VRef, VSeq, VStr, VTuple, VType, VUnk,
                          ext_sort, fresh_name)
 from pyvc.verify import Maker, p_const, p_ext, p_int, p_obj, p_opt, p_str, p_unk
 from contracts import common
@@ -610,8 +610,77 @@ def cur_loop(lc):
     return lc.ex._loop_nodes[-1]
 
 
+class VNamed(VTuple):
+    """instance of a typing.NamedTuple / collections.namedtuple class of the module: a tuple whose items also have names"""
+    __slots__ = ("fields",)
+
+    def __init__(self, items, fields):
+        super().__init__(items)
+        self.fields = tuple(fields)
+
+
 class C10Executor(Executor):
     """Pack-local models of the abstract 7z header view (all ASSUMED views are listed in ASSUMED_MODELS)."""
+
+    # -- `def f(..., **opts)` / `g(**opts)`: keyword pass-through as an immutable dict with constant keys
+    def bind_params(self, fnode, args, kwargs, node, st=None, self_val=None):
+        kw = fnode.args.kwarg
+        if kw is None:
+            return super().bind_params(fnode, args, kwargs, node, st=st, self_val=self_val)
+        named = {p.arg for p in fnode.args.posonlyargs + fnode.args.args + fnode.args.kwonlyargs}
+        env = super().bind_params(fnode, args, {k: v for k, v in kwargs.items() if k in named}, node, st=st, self_val=self_val)
+        env[kw.arg] = VDictC({k: v for k, v in kwargs.items() if k not in named})
+        return env
+
+    def e_Call(self, n, st):
+        if not any(k.arg is None for k in n.keywords) or self.is_logger_call(n):
+            return super().e_Call(n, st)
+        out = []
+        for (s, f) in self.ev(n.func, st):
+            for (s2, args) in self.ev_list(n.args, s):
+                for (s3, kwvals) in self.ev_list([k.value for k in n.keywords], s2):
+                    kwargs = {}
+                    for k, v in zip(n.keywords, kwvals):
+                        if k.arg is not None:
+                            kwargs[k.arg] = v
+                        elif isinstance(v, VDictC) and all(isinstance(x, str) for x in v.items):
+                            kwargs.update(v.items)
+                        elif isinstance(v, VRef) and s3.obj(v.ref).kind == "dict" and all(isinstance(x, str) for x in s3.obj(v.ref).data):
+                            kwargs.update(s3.obj(v.ref).data)
+                        else:
+                            self.unsupported(n, "** of a value that is not a dict with constant string keys")
+                    out.extend(self.call(s3, f, args, kwargs, n))
+        return out
+
+    # -- NamedTuple classes of the module
+    def _namedtuple_fields(self, name):
+        cls = self.module.classes.get(name)
+        if cls is None or not any(ast.unparse(b).split(".")[-1] == "NamedTuple" for b in cls.bases):
+            return None
+        return [(b.target.id, b.value) for b in cls.body if isinstance(b, ast.AnnAssign) and isinstance(b.target, ast.Name)]
+
+    def construct(self, st, t, args, kwargs, node):
+        fields = self._namedtuple_fields(t.name) if isinstance(t, VType) else None
+        if fields is not None:
+            names = [f for f, _d in fields]
+            vals = dict(zip(names, args))
+            vals.update(kwargs)
+            for f, d in fields:
+                if f not in vals:
+                    if d is None:
+                        self.raise_in(st, self.mk_exc("TypeError"))
+                        return []
+                    vals[f] = self.ev(d, st.fork())[0][1]
+            if set(vals) != set(names) or len(args) > len(names):
+                self.raise_in(st, self.mk_exc("TypeError"))
+                return []
+            return [(st, VNamed([vals[f] for f in names], names))]
+        return super().construct(st, t, args, kwargs, node)
+
+    def get_attr(self, st, base, attr, node):
+        if isinstance(base, VNamed) and attr in base.fields:
+            return [(st, base.items[base.fields.index(attr)])]
+        return super().get_attr(st, base, attr, node)
 
     _role_stack = ()
     _loop_nodes = ()
@@ -730,6 +799,43 @@ class C10Executor(Executor):
             return [(st, self._quantify(st, v, True))]
         return super().b_all(st, args, kwargs, node)
 
+    def _filter_comp(self, n, st):
+        """[x for x in IT if C(x)] with an effect-free C over a symbolic IT: the subsequence of the elements satisfying C, in order
+        (PY-LIST-ORDER): view j -> IT[sel(j)], sel increasing, every selected element satisfies C"""
+        from pyvc.state import Frame
+        g = n.generators[0]
+        r0 = self.ev(g.iter, st)
+        if len(r0) != 1 or not isinstance(r0[0][1], VSeq):
+            return None
+        s2, it = r0[0]
+
+        def cond_at(j):
+            s3 = s2.fork()
+            s3.frames.append(Frame({}, len(s3.frames) - 1, s3.frame.fnode))
+            self.sinks.append([])
+            try:
+                sts = self.assign(g.target, it.elem(j), s3)
+                cs, cur = [], (sts[0] if len(sts) == 1 else None)
+                for c_ in g.ifs:
+                    r = self.ev(c_, cur) if cur is not None else []
+                    if len(r) != 1:
+                        return None
+                    cur = r[0][0]
+                    cs.append(self.truth(cur, r[0][1]).t)
+            finally:
+                raised = self.sinks.pop()
+            if cur is None or any(self.feasible(es.pc) for (es, _e) in raised) or cur.ghost != s3.ghost:
+                return None
+            return z3.And(cs)
+        j = z3.Int(fresh_name("j!flt"))
+        c0 = cond_at(j)
+        if c0 is None:
+            return None
+        sel, cnt = z3.Function(fresh_name("filtered_index"), I, I), z3.Int(fresh_name("filtered_count"))
+        s2.assume(z3.And(cnt >= 0, cnt <= it.length))
+        s2.assume(z3.ForAll([j], z3.Implies(z3.And(j >= 0, j < cnt), z3.And(sel(j) >= 0, sel(j) < it.length, cond_at(sel(j)))), patterns=[sel(j)]))
+        return [(s2, VSeq(cnt, lambda k: it.elem(sel(k)), it.ekind, it.is_bytes, tag=("filtered", it.tag)))]
+
     def _pure_map_comp(self, n, st):
         """[E(t) for t in IT] over a symbolic IT where E has no effect and cannot raise (checked at a generic index): the
         sequence j -> E(IT[j])"""
@@ -782,6 +888,10 @@ class C10Executor(Executor):
         loop = ast.For(target=g.target, iter=ast.Name(itn, ast.Load()), body=body, orelse=[])
         ast.copy_location(loop, n)
         ast.fix_missing_locations(loop)
+        if g.ifs and isinstance(n.elt, ast.Name) and isinstance(g.target, ast.Name) and n.elt.id == g.target.id:
+            r = self._filter_comp(n, st)
+            if r is not None:
+                return r
         if not any(isinstance(k, tuple) and k[0] == "role" and sp.match(self, st, probe[0][1], loop) for k, sp in self.contract.loops.items()):
             r = self._pure_map_comp(n, st) if not g.ifs else None
             return r if r is not None else super().e_ListComp(n, st)
@@ -968,6 +1078,8 @@ class C10Executor(Executor):
         return super().contains(st, container, item, node)
 
     def get_index(self, st, base, idx, node):
+        if isinstance(base, VExt) and base.sort == "PathCounts" and isinstance(idx, VStr):
+            return [(st, VInt(PCOUNT(idx.t)))]          # Counter[key] (0 for a missing key)
         if isinstance(base, VExt) and base.sort == "FolderMap" and isinstance(idx, VInt):
             k = ops.int_term(idx)
             st = self.fork_raise(st, z3.Not(HASF(k)), "KeyError")
@@ -1687,7 +1799,10 @@ def zkeep(zf, a):
 
 
 def keep7(a):
-    e = FINFO(a)
+    return keep7e(FINFO(a))
+
+
+def keep7e(e):
     return z3.And(z3.Not(ISDIR(e)), z3.Not(SKIP(FNAME(e), BASENAME(FNAME(e)))), z3.Not(USIZE(e) > MAXMEM))
 
 
@@ -1835,16 +1950,55 @@ def m_pathcounts_get(ex, st, obj, args, kwargs, node):
     return [(st, VInt(PCOUNT(k.t)))] if isinstance(k, VStr) else ex.havoc_call(st, "PathCounts.get", args, node)
 
 
+def str_fn(name, F):
+    """uninterpreted str -> str library function; anything else is an unmodelled call"""
+    def m(ex, st, args, kwargs, node):
+        if len(args) == 1 and isinstance(args[0], VStr) and not kwargs:
+            return [(st, VStr(F(args[0].t)))]
+        return ex.havoc_call(st, name, args, node)
+    return m
+
+
+def m_posix_join(ex, st, args, kwargs, node):
+    """posixpath.join(a, b) (POSIX os.path.join): b when b is absolute, else a + '/' + b (no extra '/' when a is empty or ends in '/')"""
+    if len(args) == 2 and all(isinstance(a, VStr) for a in args) and not kwargs:
+        a, b = args[0].t, args[1].t
+        glue = z3.If(z3.Or(z3.Length(a) == 0, z3.SuffixOf(z3.StringVal("/"), a)), z3.Concat(a, b), z3.Concat(a, z3.StringVal("/"), b))
+        return [(st, VStr(z3.If(z3.PrefixOf(z3.StringVal("/"), b), b, glue)))]
+    return ex.havoc_call(st, "posixpath.join", args, node)
+
+
+def new_counter(ex, st, args, kwargs, node):
+    """collections.Counter(<normalised path of every non-directory entry>): the occurrence count per path (PCOUNT), the same
+    object the explicit counting pass builds; any other use of Counter is an unmodelled call"""
+    v = args[0] if len(args) == 1 and not kwargs else None
+    if isinstance(v, VSeq) and isinstance(v.tag, tuple) and v.tag and v.tag[0] == "genexp":
+        j = z3.Int(fresh_name("j!cnt"))
+        cond, elt = v.tag[1](j)
+        if isinstance(elt, VStr) and z3.simplify(elt.t).eq(z3.simplify(NORMPATH(FNAME(FINFO(j))))) and \
+                z3.simplify(cond).eq(z3.simplify(z3.Not(ISDIR(FINFO(j))))):
+            return [(st, VExt("PathCounts"))]
+    return ex.havoc_call(st, "collections.Counter", args, node)
+
+
+def m_pathcounts_index(ex, st, obj, args, kwargs, node):
+    return m_pathcounts_get(ex, st, obj, args, kwargs, node)
+
+
 def install_members(reg):
+    reg.ext_models[("new", "collections.Counter")] = new_counter
     reg.method_models[("seq", "startswith")] = m_seq_startswith
     reg.method_models[("PathCounts", "get")] = m_pathcounts_get
-    reg.ext_models["os.path.normpath"] = lambda ex, st, args, kwargs, node: [(st, VStr(NORMPATH(args[0].t)))]
+    reg.ext_models["os.path.normpath"] = str_fn("os.path.normpath", NORMPATH)
     reg.method_models[("Stream7z", "seek")] = m_stream_seek
     reg.ext_models[("const", "os.SEEK_END")] = VInt(2)
     common.install_clock(reg)
     reg.module_consts[(ARCH, "_config")] = VExt("ArchiveConfig")
     reg.attr_models[("ArchiveConfig", "max_memory_size")] = lambda ex, st, o: VInt(MAXMEM)
-    reg.ext_models["os.path.basename"] = lambda ex, st, args, kwargs, node: [(st, VStr(BASENAME(args[0].t)))]
+    reg.ext_models["os.path.basename"] = str_fn("os.path.basename", BASENAME)
+    reg.ext_models["posixpath.basename"] = str_fn("posixpath.basename", BASENAME)
+    reg.ext_models["posixpath.join"] = m_posix_join
+    reg.ext_models["os.path.join"] = m_posix_join
     reg.ext_models["io.BytesIO"] = lambda ex, st, args, kwargs, node: (
         [(st, VExt("MemberIO", MEMIO(args[0].t)))] if args and isinstance(args[0], VExt) and args[0].sort == "Blob"
         else ex.havoc_call(st, "io.BytesIO", args, node))
@@ -1965,13 +2119,22 @@ def install_members(reg):
     reg.method_models[("PyFile", "read")] = pyfile_read
 
 
+def work_item(ex, items, fields=None):
+    """a work item as the code builds it: a plain 3-tuple, or an instance of the module's 3-field NamedTuple when the selection
+    loop appended such instances (recorded from the append event) / when the module defines exactly one"""
+    if fields is None:
+        cands = [f for f in (ex._namedtuple_fields(c) for c in ex.module.classes) if f is not None and len(f) == 3] if hasattr(ex, "_namedtuple_fields") else []
+        fields = [f for f, _d in cands[0]] if len(cands) == 1 else None
+    return VNamed(items, fields) if fields else VTuple(items)
+
+
 def p_worklist(prefix, first_sort):
     """an arbitrary list of (handle, filename, basename) work items"""
     n = z3.Int(f"{prefix}_len")
     h = z3.Function(f"{prefix}_item", I, ext_sort(first_sort))
     fn = z3.Function(f"{prefix}_filename", I, S)
     bn = z3.Function(f"{prefix}_basename", I, S)
-    return Maker(lambda ex, st, name: [(n >= 0, VSeq(n, lambda i: VTuple([VExt(first_sort, h(i)), VStr(fn(i)), VStr(bn(i))]), "tuple"))],
+    return Maker(lambda ex, st, name: [(n >= 0, VSeq(n, lambda i: work_item(ex, [VExt(first_sort, h(i)), VStr(fn(i)), VStr(bn(i))]), "tuple"))],
                  desc="list[(handle, filename, basename)]"), (n, h, fn, bn)
 
 
@@ -2100,8 +2263,9 @@ def member_contracts(reg_models=None):
             # PY-LIST-ORDER: the list is the sequence of appended values in loop order = the kept members, in container order
             n = ZKEPT(zf, ZN(zf))
             lc.st.assume(sel_axiom(lambda j: ZSEL(zf, j), lambda a: ZKEPT(zf, a), lambda a: zkeep(zf, a), ZN(zf)))
-            lc.st.bind(wl, VSeq(n, lambda j: VTuple([VExt("ZipInfo", ZINFO(zf, ZSEL(zf, j))), VStr(ZNAME(ZINFO(zf, ZSEL(zf, j)))),
-                                                    VStr(BASENAME(ZNAME(ZINFO(zf, ZSEL(zf, j)))))]), "tuple", tag=("worklist", zf)))
+            ex_ = lc.ex
+            lc.st.bind(wl, VSeq(n, lambda j: work_item(ex_, [VExt("ZipInfo", ZINFO(zf, ZSEL(zf, j))), VStr(ZNAME(ZINFO(zf, ZSEL(zf, j)))),
+                                                             VStr(BASENAME(ZNAME(ZINFO(zf, ZSEL(zf, j)))))]), "tuple", tag=("worklist", zf)))
         return z3.And(conj + [z3.BoolVal(True)])
 
     def zip_disp_inv(lc):
@@ -2240,21 +2404,34 @@ def member_contracts(reg_models=None):
         conj = []
         wl = worklist_of(cur_loop(lc))
         ref = lc.entry.lookup(wl).ref
+        direct = not (isinstance(lc.seq.tag, tuple) and lc.seq.tag and lc.seq.tag[0] == "filtered")      # iterating szf.list() itself
         if lc.extra.get("phase") == "preserve":
-            e = FINFO(i - 1)
+            ev = lc.seq.elem(i - 1)                      # the entry this iteration looked at (also through a pre-filtered view)
+            if not (isinstance(ev, VExt) and ev.sort == "FileInfo"):
+                raise ops.Unsupported("7z selection loop: not iterating FileInfo entries")
+            e = ev.t
             new = [v for (r, v) in new_events(lc, "appends") if r == ref]
             ok = z3.BoolVal(False)
             if len(new) == 0:
-                ok = z3.Not(keep7(i - 1))
+                ok = z3.Not(keep7e(e))
             elif len(new) == 1 and isinstance(new[0], VTuple) and len(new[0].items) == 3:
                 h, fn, bn = new[0].items
                 if isinstance(h, VExt) and h.sort == "FileInfo" and isinstance(fn, VStr) and isinstance(bn, VStr):
-                    ok = z3.And(keep7(i - 1), h.t == e, fn.t == FNAME(e), bn.t == BASENAME(FNAME(e)))
+                    ok = z3.And(keep7e(e), h.t == e, fn.t == FNAME(e), bn.t == BASENAME(FNAME(e)))
             conj.append(ok)
         if lc.extra.get("phase") == "exit":
-            lc.st.assume(sel_axiom(SEL7, KEPT7, keep7, N7))
-            v = VSeq(KEPT7(N7), lambda j: VTuple([VExt("FileInfo", FINFO(SEL7(j))), VStr(FNAME(FINFO(SEL7(j)))),
-                                                 VStr(BASENAME(FNAME(FINFO(SEL7(j)))))]), "tuple", tag=("worklist7",))
+            ex_ = lc.ex
+            if direct:
+                lc.st.assume(sel_axiom(SEL7, KEPT7, keep7, N7))
+                sel, cnt, src = SEL7, KEPT7(N7), (lambda k: FINFO(k))
+            else:
+                # selection over an already filtered view: the kept elements of THAT view, in its order (PY-LIST-ORDER)
+                sel, cnt = z3.Function(fresh_name("selected_of_view"), I, I), z3.Int(fresh_name("selected_count"))
+                seq = lc.seq
+                lc.st.assume(cnt >= 0)
+                src = (lambda k: seq.elem(k).t)
+            v = VSeq(cnt, lambda j: work_item(ex_, [VExt("FileInfo", src(sel(j))), VStr(FNAME(src(sel(j)))),
+                                                    VStr(BASENAME(FNAME(src(sel(j)))))]), "tuple", tag=("worklist7",))
             lc.st.bind(wl, v)
             lc.st.ghost["worklist7"] = v
         return z3.And(conj + [z3.BoolVal(True)])
@@ -3238,6 +3415,9 @@ def contracts(reg):
     return [guard_contract(c) for c in out]
 
 
+OPTIONAL_ROLES = {"counts-the-entries-per-normalised-path"}
+
+
 def _missing_locked_as_unknown(c, rep):
     """an obligation recorded in the lock that the (changed) function no longer generates -- a loop whose role was not
     recognised, a clause attached to a statement that disappeared -- is neither proved nor refuted: `unknown`"""
@@ -3257,6 +3437,8 @@ def _missing_locked_as_unknown(c, rep):
         aux = oid[len(prefix):].split("#")[0] in ("inv-init", "inv-preserve", "unwind")
         if aux and getattr(c, "functional", False):
             continue        # the contract fixes the whole result (returns / grammar clause): how the code loops is not part of it
+        if aux and oid.split("#")[-1] in OPTIONAL_ROLES:
+            continue        # an auxiliary pass whose result is introduced abstractly: it may be written without a loop
         if oid.startswith(prefix) and oid not in have and "/call-pre#" not in oid and not oid.endswith(".BOUNDED"):
             rep.obligations.append({"id": oid, "kind": oid[len(prefix):].split("#")[0], "status": "unknown", "vcs": 0, "seconds": 0.0, "backends": {},
                                     "witness": None, "reason": "locked obligation not generated from the changed code (loop role / statement not recognised)", "loc": ""})
